@@ -441,8 +441,11 @@ pub fn encode_with_dist_header_multi(terms: &[&OwnedTerm]) -> Result<Vec<u8>, En
     }
 
     if atom_set.is_empty() {
+        // a distribution header with zero atom cache references: no flags, no entries
         let mut buf = BytesMut::new();
         buf.put_u8(VERSION);
+        buf.put_u8(DIST_HEADER);
+        buf.put_u8(0);
         for term in terms {
             encode_term(&mut buf, term)?;
         }
@@ -482,7 +485,10 @@ pub fn encode_with_dist_header_multi(terms: &[&OwnedTerm]) -> Result<Vec<u8>, En
 
     let long_atoms = atoms.iter().any(|a| a.name.len() > 255);
     if long_atoms {
-        buf[flags_start_pos + flags_len - 1] |= 0x01;
+        // the LongAtoms bit is bit 0 of flag field number `n`: the low half of the last flag
+        // byte when n is even, its high half when n is odd
+        let long_atoms_mask = if atoms.len() % 2 == 0 { 0x01 } else { 0x10 };
+        buf[flags_start_pos + flags_len - 1] |= long_atoms_mask;
     }
 
     for (index, atom) in atoms.iter().enumerate() {
